@@ -482,6 +482,9 @@ func (r *repState) step(e event) {
 		}
 	case 'F':
 		code = codeCompletedLost
+		if e.index == 0 {
+			r.badWhy = fmt.Sprintf("not-readable-after-power-cut: the store cannot be opened or read back; acknowledged term %d, vote %d and entries up to index %d are lost", r.img.term, r.img.vote, r.img.lastDurable())
+		}
 	default:
 		return
 	}
